@@ -24,6 +24,6 @@ class BuiltinNameSanitizer(NameSanitizer):
             char for char in self._BAD_CHARS.sub("", name[1:].translate(self._TRANSLATE_MAP))
             if (first_letter + char).isidentifier()
         )
-        if keyword.iskeyword(result):
+        if keyword.iskeyword(result) or result == "__debug__":  # assignment to __debug__ is a syntax error as well
             return result + "_"
         return result
